@@ -89,6 +89,7 @@ type taskRec struct {
 	returnedStep int  // step at which the submission was first seen returned (-1: not yet)
 	cancelStep   int  // step at which its own context was cancelled (-1: never)
 	ctxDoneEver  bool // the task's or the pool's context was done at some point (monitor bookkeeping)
+	consumed     *workerpool.TaskResult // the finished task's result, taken from its channel before the object was handed over again
 	next         *taskRec // the same *Task object was handed to the pool again (after a TryDo that returned false on a saturated pool): the attempt that now owns it
 }
 
@@ -128,6 +129,9 @@ type runState struct {
 // nres is the number of results buffered on the task's result channel; a submission through Execute* that is still
 // blocked has not handed its task back yet (and cannot have a result)
 func (t *taskRec) nres() int {
+	if t.consumed != nil {
+		return 1 // (its result was delivered; the harness took it from the channel when it re-used the object)
+	}
 	if t.task == nil {
 		return 0
 	}
@@ -250,6 +254,17 @@ func (r *runState) retryCandidate() *taskRec {
 		if t.kind == "try" && t.returned && !t.tryRes && t.next == nil && t.id%3 == 0 && t.task != nil && t.nres() == 0 &&
 			atomic.LoadInt32(&t.execs) == 0 && (t.ctxKind == "pool" || t.ctxKind == "never") {
 			return t
+		}
+		// a FINISHED task (executed, its value delivered) whose result the client has read: the object may be submitted again and is then
+		// accepted, executed and answered a second time
+		if t.returned && t.accepted && t.next == nil && t.consumed == nil && t.id%3 == 0 && t.task != nil && t.released && t.nres() == 1 &&
+			atomic.LoadInt32(&t.execs) == 1 && (t.ctxKind == "pool" || t.ctxKind == "never") && i%2 == 0 {
+			select {
+			case res := <-t.task.Result():
+				t.consumed = res // (executed once and released: it is the executor's value; the epilogue judges it like any other result)
+				return t
+			default:
+			}
 		}
 	}
 	return nil
@@ -499,7 +514,14 @@ func (r *runState) runScenario() {
 		if t.next != nil {
 			// this attempt was turned away by TryDo (saturated) and its task object was handed over again: the object's result belongs to the
 			// later attempt; this one must not have been executed
-			if atomic.LoadInt32(&t.execs) != 0 {
+			if t.consumed != nil {
+				// finished, its result read by the client, then handed over again: the first acceptance ran once and got the executor's value
+				want := map[bool]error{true: t.execErr, false: nil}[t.id%4 == 3]
+				if t.consumed.Result != t.id || t.consumed.Err != want || atomic.LoadInt32(&t.execs) != 1 {
+					r.fail("C04 task %d (before its object was submitted again): result %v / %v, executions %d; its executor returned %d / %v once", t.id, t.consumed.Result, t.consumed.Err, atomic.LoadInt32(&t.execs), t.id, want)
+				}
+				kind = "val"
+			} else if atomic.LoadInt32(&t.execs) != 0 {
 				r.fail("C04 task %d was refused by TryDo (false, no error result) but was executed", t.id)
 			}
 			fin = append(fin, fmt.Sprintf("%d:%s", t.id, kind))
@@ -650,6 +672,12 @@ func genScenario(rng *rand.Rand) scenario {
 			for u := range running {
 				sc.actions = append(sc.actions, fmt.Sprintf("finish %d", u))
 				delete(running, u)
+				if rng.Intn(3) == 0 {
+					// a finished task whose result has been read is submitted again (same object): accepted, executed and answered once more
+					sc.actions = append(sc.actions, "retry "+[]string{"do", "do", "try"}[rng.Intn(3)])
+					running[ntask] = true
+					ntask++
+				}
 				break
 			}
 		case r < 68:
